@@ -49,3 +49,16 @@ Proof.
   apply andb_true_iff in Hc. destruct Hc as [He Hs].
   exists i. repeat split; [exact Hi | apply String.eqb_eq; exact He | exact Hs].
 Qed.
+
+(** The adapter read from the current source tree forwards faithfully. *)
+Lemma dyn_adapter_check : dyn_adapter_ok dyn_adapter_real = true.
+Proof. vm_compute. reflexivity. Qed.
+
+Lemma dyn_exact_all :
+  forall i, In i impls -> in_scope i = true ->
+    forall c, content_ok i c ->
+      Permutation (sem_dyn tables_real trace_default dyn_adapter_real i c) (all_pointers tables_real i c).
+Proof.
+  intros i Hin Hsc. apply dyn_exact; [exact dyn_adapter_check|].
+  apply (proj1 (forallb_forall _ _) all_wf). apply filter_In. split; assumption.
+Qed.
